@@ -103,12 +103,20 @@ def run(tier):
     Lk = lambda c, f=0, g=0, kd="": {"c": c, "f": f, "g": g, "kd": kd}
     long_h = [Lk("diff", 1, 1, "mod"), Lk("index"), Lk("mmm", 1), Lk("ppp", 1), Lk("hh"), Lk("zero"), Lk("minus"), Lk("plus")]
     jobs.append((long_h, ["--no-gitconfig", "--color-only"], [], 0, ["(a 3500-character line)"], False))
+    # files with CRLF line endings, lines longer than a small window: git colours the CR of an added line as a whitespace
+    # error, so escape sequences stand between the CR and the line feed
+    crlf_hists = [h for h in hists if sum(l["c"] in ("plus", "minus", "zero") for l in h) >= 2]
+    for j, h in enumerate(rnd.sample(crlf_hists, min(len(crlf_hists), 40 if tier == "quick" else 400))):
+        jobs.append((h, ["--no-gitconfig", "--color-only"], [], 100 + j % 5, [], False))
     log(f"[{PID}] {len(subsets)} option sets x histories = {len(jobs)} runs")
     intern = gitskin.Interner()
 
     def one(job):
         h, args, over, variant, names, via = job
         pay = tab_payload if h is not long_h else (lambda k, c: f"tokZ{k}Z " + "x" * (3500 if k >= 7 else 5))
+        if variant >= 100:
+            variant -= 100
+            pay = lambda k, c: (f"tokZ{k}Z " + "the quick brown fox jumps over the lazy dog " * (1 + k % 3) + "\r") if c in ("plus", "minus", "zero") else tab_payload(k, c)
         data, texts = gitskin.concretise(h, payload=pay, skin={"frag": ["std", "none", "numbers", "space"][variant % 4]})
         if variant:
             texts = gitskin.colourise(h, texts, variant)
@@ -122,7 +130,7 @@ def run(tier):
         if tail:
             rows.append(tail)
         events.append({"run": i, "cls": [l["c"] for l in h], "tab": ["\t" in t for t in texts],
-                       "vin": [intern(lexer.strip_ansi(t.encode())) for t in texts],
+                       "vin": [intern(lexer.strip_ansi(stream.normalise_line(t.encode()))) for t in texts],     # (CRLF normalisation is permitted)
                        "vout": [intern(lexer.strip_ansi(b)) for b in rows], "over": over,
                        "code": 999 if r.timed_out else r.code, "plain": not names,
                        "lines": [{"c": l["c"], "f": l["f"], "g": l["g"], "kd": l.get("kd", "")} for l in h]})
